@@ -414,6 +414,61 @@ def run(tier="quick", seed=0):
         if v:
             viol.append(v)
 
+    # ---- the retry limit, timeout and port a controller is configured with reach every connection it makes ---------------
+    # ("... the configured number of tries": also for the connections the controller opens itself when it discovers the
+    #  other boards of a machine - the real discover_connections() against the SC&MP model of bounded/_scamp.py)
+    import inspect
+    from bounded import _scamp
+    import rig.machine_control.machine_controller as mcm
+    real_conn = mcm.SCPConnection
+    params_of = inspect.signature(real_conn.__init__)
+    for cfg_i, (n_tries, timeout, port) in enumerate(((2, 0.25, 17000), (7, 0.005, 17893), (1, 1.5, 5))):
+        made = []
+
+        class Made(_scamp.Connection):
+            def __init__(self, *a, **k):
+                _scamp.Connection.__init__(self, None)
+                b = params_of.bind(self, *a, **k)
+                b.apply_defaults()
+                made.append(dict((n, v) for n, v in b.arguments.items() if n != "self"))
+        mcm.SCPConnection = Made
+        try:
+            ctl = mcm.MachineController("initial-host", scp_port=port, n_tries=n_tries, timeout=timeout)
+            model = _scamp.Scamp(ctl.structs, 12, 12, root=(0, 0))
+            for e in ((0, 0), (4, 8), (8, 4)):
+                model.chips[e].eth_up, model.chips[e].ip = True, 0x0100000a + (e[0] << 16)
+            model.boot(render_router=False)
+            for c in ctl.connections.values():
+                c.model = model
+            real_make = mcm.SCPConnection
+
+            def make(*a, **k):
+                c = real_make(*a, **k)
+                c.model = model
+                return c
+            mcm.SCPConnection = make
+            n_new = ctl.discover_connections()
+            why = None
+        except Exception as e:      # noqa
+            n_new, why = None, "%s: %s" % (type(e).__name__, e)
+        finally:
+            mcm.SCPConnection = real_conn
+        ev += 1
+        nontrivial += 1
+        per_family["controller_configuration"] = per_family.get("controller_configuration", 0) + 1
+        if why is None and (n_new != 3 or len(made) != 4):
+            why = "12x12 machine with three Ethernet-connected boards: discover_connections() reported %r new connections, %d connections were constructed in all" % (n_new, len(made))
+        if why is None:
+            for k, m in enumerate(made):
+                got = (m.get("n_tries"), m.get("timeout"), m.get("port"))
+                if got != (n_tries, timeout, port):
+                    why = "connection #%d (%s, host %r) was constructed with (n_tries, timeout, port) = %r; the controller was configured with %r" % (
+                        k, "the initial one" if k == 0 else "made by discover_connections", m.get("spinnaker_host"), got, (n_tries, timeout, port))
+                    break
+        if why and len(viol) < 8:
+            viol.append({"id": "ctlcfg_%d" % cfg_i, "clause": "connection_not_configured_as_the_controller", "why": why,
+                         "inputs": {"n_tries": n_tries, "timeout": timeout, "scp_port": port, "machine": "12x12, Ethernet up on (0,0), (4,8), (8,4)"}})
+
     return {"name": "c06_bursts", "evaluations": ev, "distinct_nontrivial": nontrivial,
             "rule": "real SCPConnection.send_scp_burst/send_scp over a simulated socket, select and virtual clock; a case = (configuration, outcome "
                     "schedule): one outcome per transmitted datagram from {ok, request lost, reply lost, reply late by 1.25 / 2.25 timeouts, reply "
@@ -421,7 +476,7 @@ def run(tier="quick", seed=0):
                     "actually reached runs exactly once (so all cases are distinct); configurations: bursts of 1-3 commands x window 1-2 x n_tries 1-3, "
                     "send_scp, per-command extra timeouts and callbacks that keep the host busy 2.5 timeouts, two consecutive bursts on one connection "
                     "sharing one schedule, every fatal and retryable return code of the SCP specification as the reply to every position of a 1-3 command burst, the real 16-bit counter advanced to 65530 and 12 commands sent across its wrap, 3-bit sequence space (seqs(mask=7)) with 1-3 long-outstanding commands across a wrap; plus a seeded sample "
-                    "at depth 9.  non-trivial = at least one fault outcome consumed (or a sequence wrap).  runs per family: %r" % (per_family,),
+                    "at depth 9; and three controller configurations (n_tries, timeout, port) for which the initial connection and every connection made by the real discover_connections() on a simulated three-board machine must be constructed with exactly those values.  non-trivial = at least one fault outcome consumed (or a sequence wrap).  runs per family: %r" % (per_family,),
             "bound": ("quick: single bursts and send_scp to depth 5, extras and two bursts to depth 4 (two one-command bursts: 5), wrap family depth 2"
                       if tier == "quick" else
                       "thorough: single bursts to depth 6 (depth 7 without the late duplicate for >= 2 commands and >= 2 tries; depth 5 with all ten outcomes "
